@@ -873,7 +873,9 @@ def run(ctx):
     ctx.build_property()
     if ctx.thorough:
         ctx.coqchk()
+    global MAX_POINTS
     limit = 700 if not ctx.thorough else 100000
+    MAX_POINTS = 420 if not ctx.thorough else 8000
     ctx.rule = ("per scenario (old storage file | none, optional stale temporary file - also longer than / equal to / shorter than "
                 "the new content, and every directory an interrupted earlier save of a longer generation leaves behind - , new settings, "
                 "storage file names with suffix .tmp / no suffix / several dots, the storage path a regular file / symbolic link (same dir, other dir, dangling) / hard link / "
